@@ -247,6 +247,23 @@ def _in_child(steps, sources, keep_comments=False):
 _HEADER = None
 
 
+def unit_names(src):
+    """Lower-cased names of all program units / subprograms whose header occurs anywhere in src."""
+    import re
+    if _HEADER is None:
+        failing_unit("", "")
+    out = set()
+    for line in src.split("\n"):
+        for part in line.split(";"):
+            low = re.sub(r"^\s*\d+\s*", "", part)
+            if low.strip().lower().startswith("end"):
+                continue
+            h = _HEADER.match(low)
+            if h:
+                out.add(h.group(2).lower())
+    return out
+
+
 def failing_unit(src, errtext):
     """Name of the symbol table of the top-level program unit that was open at the error line
     ('fparser2:main_program' when the line is outside any unit that has a header)."""
@@ -339,17 +356,28 @@ def evaluate(case):
                     tag = ":exit"
                 else:
                     own = failing_unit(sources[op], o.get("text", ""))
+                    named = unit_names(sources[op])
+                    first = sources[op].split("\n", 1)[0].split()
+                    if op[:1] == "n" and len(first) == 2 and first[1].startswith("zz_"):
+                        # derived source (see build): one host unit zz_* around a failing nested unit - the
+                        # structure is known by construction, so only the host's name may be cleaned up by name
+                        own, named = first[1].lower(), set()
                     tag = ""
                     if before - after:
-                        # the recorded finding: clean-up by name removes an older table called like the failing
-                        # TOP-LEVEL unit; any other table disappearing is a different (unrecorded) violation
-                        tag = (":removed-preexisting-same-name" if {x.strip().lower() for x in before - after} <= {own, "fparser2:main_program"}
-                               else ":removed-unrelated-table")     # every failing source is also tried as a main
-                        #                                              program without PROGRAM statement
+                        # the recorded finding: clean-up BY NAME removes an older table called like a unit of the
+                        # failing source (or like the PROGRAM-less main program every failing source is also tried
+                        # as); a table whose name does not occur in the failing source at all is a different
+                        # (unrecorded) violation.  Attributing the removal to one particular unit of a mutated
+                        # source proved unreliable (text heuristics), so that is no longer attempted.
+                        tag = (":removed-preexisting-same-name"
+                               if {x.strip().lower() for x in before - after} <= named | {own, "fparser2:main_program"}
+                               else ":removed-unrelated-table")
                     if after - before:
-                        # the recorded finding is about tables of units matched BEFORE the failing one; the
-                        # failing unit's own table staying behind is a different (unrecorded) violation
-                        tag += ":own-table-left" if own in (after - before) else ":left-tables-of-earlier-units"
+                        # the recorded finding is about tables of units matched BEFORE the failing one; the failing
+                        # unit's own table staying behind is a different violation - claimed only where the
+                        # attribution cannot be wrong: the source names a single unit
+                        tag += (":own-table-left" if own in (after - before) and len(named | {own}) == 1
+                                else ":left-tables-of-earlier-units")
                 failures.append(Result(False, "tables-changed-by-failed-parse%s" % tag, nontrivial, labels,
                                        {"step": i, "before": o["tables_before"], "after": o["tables_after"],
                                         "source": sources[op], "steps": steps}))
